@@ -616,7 +616,7 @@ func parseDataFrame(fc *frameCache, fh FrameHeader, countError func(string), pay
 		payload, padSize, err = readByte(payload)
 		if err != nil {
 			countError("frame_data_pad_byte_short")
-			return nil, err
+			return nil, connError{ErrCodeFrameSize, "DATA frame too short for its pad length"}
 		}
 	}
 	if int(padSize) > len(payload) {
@@ -1036,7 +1036,7 @@ func parseHeadersFrame(_ *frameCache, fh FrameHeader, countError func(string), p
 	if fh.Flags.Has(FlagHeadersPadded) {
 		if p, padLength, err = readByte(p); err != nil {
 			countError("frame_headers_pad_short")
-			return
+			return nil, connError{ErrCodeFrameSize, "HEADERS frame too short for its pad length"}
 		}
 	}
 	if fh.Flags.Has(FlagHeadersPriority) {
@@ -1044,14 +1044,14 @@ func parseHeadersFrame(_ *frameCache, fh FrameHeader, countError func(string), p
 		p, v, err = readUint32(p)
 		if err != nil {
 			countError("frame_headers_prio_short")
-			return nil, err
+			return nil, connError{ErrCodeFrameSize, "HEADERS frame too short for its priority fields"}
 		}
 		hf.Priority.StreamDep = v & 0x7fffffff
 		hf.Priority.Exclusive = (v != hf.Priority.StreamDep) // high bit was set
 		p, hf.Priority.Weight, err = readByte(p)
 		if err != nil {
 			countError("frame_headers_prio_weight_short")
-			return nil, err
+			return nil, connError{ErrCodeFrameSize, "HEADERS frame too short for its priority fields"}
 		}
 	}
 	if len(p)-int(padLength) < 0 {
@@ -1314,14 +1314,14 @@ func parsePushPromise(_ *frameCache, fh FrameHeader, countError func(string), p 
 	if fh.Flags.Has(FlagPushPromisePadded) {
 		if p, padLength, err = readByte(p); err != nil {
 			countError("frame_pushpromise_pad_short")
-			return
+			return nil, connError{ErrCodeFrameSize, "PUSH_PROMISE frame too short for its pad length"}
 		}
 	}
 
 	p, pp.PromiseID, err = readUint32(p)
 	if err != nil {
 		countError("frame_pushpromise_promiseid_short")
-		return
+		return nil, connError{ErrCodeFrameSize, "PUSH_PROMISE frame too short for its promised stream ID"}
 	}
 	pp.PromiseID = pp.PromiseID & (1<<31 - 1)
 
